@@ -38,6 +38,9 @@ struct S {
     /// at t=5 a slow message (3 ticks) and two more go in through the waiting path: on a small
     /// bounded mailbox the interval's tick at t=6 finds no room - and must not mind
     backlog: bool,
+    /// the owner (where it is among the survivors) starts a join, polls it once and gives it up
+    /// (a timeout or a `select!` around `join()`): the OwningAddr is a strong handle as before
+    join_abandoned: bool,
 }
 
 const M_UPWS: u32 = 11;
@@ -149,7 +152,12 @@ impl Scene for S {
         }
         // a second client holds one more plain address for a while and drops it concurrently
         let extra = Handles::with_addr(base);
-        let mut ops = vec![Op::Sleep(5)];
+        let mut ops = vec![];
+        if self.join_abandoned && self.subset[1] {
+            ops.extend([Op::JoinStart(H::Own(0)), Op::JoinPollOnce(0), Op::Sleep(1), Op::JoinDrop(0), Op::Sleep(4)]);
+        } else {
+            ops.push(Op::Sleep(5));
+        }
         if self.burst {
             // one slow message, then more forced messages than any small bound has room for
             ops.extend([Op::ForceSend(H::WSnd(0), 30), Op::ForceSend(H::WSnd(0), 31), Op::ForceSend(H::WSnd(0), 32), Op::ForceSend(H::WSnd(0), 33), Op::ForceSend(H::WSnd(0), 34)]);
@@ -608,7 +616,7 @@ fn base_cases(tier: Tier) -> Vec<Case> {
                         desc: format!("strong-kinds subset={} path={:?} mailbox={} restart={} burst={}", subset_name(&subset), path, mailbox.name(), with_restart, burst),
                         exec: ExecCfg { horizon: 30, ..ExecCfg::default() },
                         bound: None,
-                        scene: Box::new(S { subset, path, mailbox, with_restart, burst, owner_dropped: false, time_races: false, zero_shots: false, backlog: false }),
+                        scene: Box::new(S { subset, path, mailbox, with_restart, burst, owner_dropped: false, time_races: false, zero_shots: false, backlog: false, join_abandoned: false }),
                     });
                     // a moment of backlog on a small bounded mailbox (kinds that have a waiting send)
                     if (subset[0] || subset[2]) && mask.count_ones() <= 2 && path == Path::Direct && with_restart == 0 && !burst && mailbox != Mailbox::U {
@@ -616,7 +624,7 @@ fn base_cases(tier: Tier) -> Vec<Case> {
                             desc: format!("strong-kinds [a backlog at t=5] subset={} path={:?} mailbox={} restart={} burst={}", subset_name(&subset), path, mailbox.name(), with_restart, burst),
                             exec: ExecCfg { horizon: 40, ..ExecCfg::default() },
                             bound: Some(if tier == Tier::Thorough { 4 } else { 2 }),
-                            scene: Box::new(S { subset, path, mailbox, with_restart, burst, owner_dropped: false, time_races: false, zero_shots: false, backlog: true }),
+                            scene: Box::new(S { subset, path, mailbox, with_restart, burst, owner_dropped: false, time_races: false, zero_shots: false, backlog: true, join_abandoned: false }),
                         });
                     }
                     // zero-delay one-shots next to the other timers (one strong kind at a time)
@@ -626,7 +634,7 @@ fn base_cases(tier: Tier) -> Vec<Case> {
                             exec: ExecCfg { horizon: 30, ..ExecCfg::default() },
                             // (two more timer tasks at t=0: deviation-bounded)
                             bound: Some(if tier == Tier::Thorough { 4 } else { 2 }),
-                            scene: Box::new(S { subset, path, mailbox, with_restart, burst, owner_dropped: false, time_races: false, zero_shots: true, backlog: false }),
+                            scene: Box::new(S { subset, path, mailbox, with_restart, burst, owner_dropped: false, time_races: false, zero_shots: true, backlog: false, join_abandoned: false }),
                         });
                     }
                     // the owner is dropped rather than detached (where it is not one of the survivors)
@@ -635,7 +643,18 @@ fn base_cases(tier: Tier) -> Vec<Case> {
                             desc: format!("strong-kinds [owner dropped, not detached] subset={} path={:?} mailbox={} restart={} burst={}", subset_name(&subset), path, mailbox.name(), with_restart, burst),
                             exec: ExecCfg { horizon: 30, ..ExecCfg::default() },
                             bound: None,
-                            scene: Box::new(S { subset, path, mailbox, with_restart, burst, owner_dropped: true, time_races: false, zero_shots: false, backlog: false }),
+                            scene: Box::new(S { subset, path, mailbox, with_restart, burst, owner_dropped: true, time_races: false, zero_shots: false, backlog: false, join_abandoned: false }),
+                        });
+                    }
+                    // the owner gives up a join half-way and remains a strong handle like any other
+                    if subset[1] && path == Path::Direct && with_restart <= 1 && !burst {
+                        v.push(Case {
+                            desc: format!("strong-kinds [the owner gave up a join] subset={} path={:?} mailbox={} restart={} burst={}", subset_name(&subset), path, mailbox.name(), with_restart, burst),
+                            // (whether the uncontended lock inside join() suspends is a choice: the
+                            // join is polled exactly once)
+                            exec: ExecCfg { horizon: 30, lock_yield_is_choice: true, ..ExecCfg::default() },
+                            bound: None,
+                            scene: Box::new(S { subset, path, mailbox, with_restart, burst, owner_dropped: false, time_races: false, zero_shots: false, backlog: false, join_abandoned: true }),
                         });
                     }
                     // thorough: once more with timer deadlines racing runnable tasks
@@ -644,7 +663,7 @@ fn base_cases(tier: Tier) -> Vec<Case> {
                             desc: format!("strong-kinds [time races] subset={} path={:?} mailbox={} restart={} burst={}", subset_name(&subset), path, mailbox.name(), with_restart, burst),
                             exec: ExecCfg { horizon: 30, max_early_fires: 1, ..ExecCfg::default() },
                             bound: None,
-                            scene: Box::new(S { subset, path, mailbox, with_restart, burst, owner_dropped: false, time_races: true, zero_shots: false, backlog: false }),
+                            scene: Box::new(S { subset, path, mailbox, with_restart, burst, owner_dropped: false, time_races: true, zero_shots: false, backlog: false, join_abandoned: false }),
                         });
                     }
                 }
